@@ -119,7 +119,7 @@ func Run(tier string, seed uint64, modelPath, repo string, out *res.Result) erro
 	out.Rule = "paths: random command lists of the SVG path grammar (moveto first, 1-9 commands, 1-4 argument groups each, dyadic coordinates k/4..k/16) " +
 		"printed with random number syntaxes (.5, 2.5e2, 25e-1, 2.5E2, 2.5e+2, trailing dot, +) and separators (space, comma, newline, tab, none where the grammar allows); " +
 		"compared exactly (tolerance 2^-20 relative only on cubics elevated from quadratics: the code multiplies by float32(2/3)); arcs: last cubic ends exactly at the requested point, " +
-		"samples of every cubic satisfy the ellipse equation within 1e-4 (5e-4 for the one-cubic-per-quarter curves of rect/circle/ellipse) and sweep the angle the flags select; " +
+		"samples of every cubic satisfy the ellipse equation within 1e-4 (5e-4 for the one-cubic-per-quarter curves of rect/circle/ellipse) (plus the float32 quantisation 2^-22*max|coord|/min radius) and sweep the angle the flags select; " +
 		"shapes: all six basic shapes with all geometry attributes (unitless/px/%), tolerance 2^-20 on the Bezier-constant products; " +
 		"viewbox: viewport x viewBox x 9 alignments x meet/slice/none on the root and on a nested svg, 1 in 10 with a malformed preserveAspectRatio (no crash, model-equal), tolerance 2^-20*max(1,|v|,W,H); " +
 		"multipath: 2-4 <path> elements in one image, later ones mostly starting with a relative moveto (shared parser object); use: random g/defs/use graphs with missing and cyclic references; refs: cyclic and missing marker/clip-path/mask/pattern/gradient references in a child process (clip-path and mask graphs also compared with the guard model); corpus: minimal inputs of the repaired defects first; " +
